@@ -9,7 +9,7 @@
       round trip and C18's registry theorem are stated over their own types). *)
 From Coq Require Import List Bool Arith Lia Permutation NArith ZArith.
 Import ListNotations.
-From SioV Require Import Base.GoSem Eio.Packet Eio.Codec Eio.CodecProofs Eio.Batcher Eio.BatcherProofs.
+From SioV Require Import Base.GoSem Eio.Packet Eio.Codec Eio.CodecProofs Eio.Payload Eio.PayloadProofs Eio.Batcher Eio.BatcherProofs.
 From SioV Require Eio.Limits Eio.LimitsProofs.
 From SioV Require Import Sio.EndToEnd.
 
@@ -36,6 +36,26 @@ Qed.
 (** the receiver's decision on one send: every message within the read limit ([max <= 0]: none) *)
 Definition ws_accepts (max : Z) (u : list (bool * bytes)) : bool :=
   forallb (fun m => (max <=? 0)%Z || (zlen (snd m) <=? max)%Z) u.
+
+(** long-polling: one HTTP body per transport send, packets joined by the record separator,
+    binary packets as 'b' + base64 (Eio/Payload.v) *)
+Definition poll_pack (b : list packet) : bytes := encode_payload b.
+Definition poll_unpack (u : bytes) : list packet :=
+  match decode_payload u with Ok ps => ps | _ => [] end.
+(** C11's precondition: data are bytes, and a text frame does not contain the separator 0x1e
+    (encoding/json writes U+001E as an escape; a namespace containing the raw byte would break
+    the payload format itself) *)
+Definition poll_frame_ok (p : packet) : Prop :=
+  packet_ok p = true /\ (p_binary p = false -> ~ In delim (p_data p)).
+
+Lemma poll_roundtrip : forall b, Forall poll_frame_ok b -> poll_unpack (poll_pack b) = b.
+Proof.
+  intros b Hb. unfold poll_unpack, poll_pack. destruct b as [|p b].
+  - destruct empty_payload_is_error as [-> ->]. reflexivity.
+  - rewrite payload_roundtrip; [reflexivity | discriminate |].
+    intros q Hq. rewrite Forall_forall in Hb. exact (Hb q Hq).
+Qed.
+
 
 (** ... and the same decision taken by C13's model of the code (Eio/Limits.v [decide], websocket,
     either direction): the server reads with its MaxBufferSize, the client with the maxPayload the
@@ -107,6 +127,38 @@ Section RealTransport.
       as [_ [H _]].
     exact (proj2 (H h Hh)).
   Qed.
+  (** Long-polling transport, real payload framing (C11_payload_roundtrip: several packets per
+      HTTP body, base64 for binary), real batcher: same conclusion.  [enc_poll_frames_ok] is C11's
+      precondition on what the Socket.IO codec emits (bytes; no raw 0x1e in text frames). *)
+  Hypothesis enc_poll_frames_ok : forall e, Forall poll_frame_ok (enc e).
+
+  Definition real_poll_deliveries (accepts : bytes -> bool) :=
+    deliveries name arg packet dstate d0 dec_step bytes poll_pack poll_unpack
+               accepts (fun us => us) real_get_all.
+
+  Theorem real_polling_exactly_once :
+    forall (c : cfg) (ems : list (list (event name arg * offset))) tr (maxp : Z) polling
+           (accepts : bytes -> bool),
+      client_strips_offset c = false ->
+      Interleave ems tr ->
+      let frames := wire name arg offset off_arg packet enc c tr in
+      let batches := write_writable maxp polling frames in
+      within_limits packet bytes poll_pack accepts batches ->
+      sig_matches name arg hs (map fst (concat ems)) ->
+      forall h, In h hs ->
+        Permutation (handed arg (hid name h) (real_poll_deliveries accepts c batches))
+                    (args_named name name_eqb arg (hname name h) (map fst (concat ems))).
+  Proof.
+    intros c ems tr maxp polling accepts Hs Hil frames batches Hl Hsig h Hh.
+    pose proof (exactly_once_intact name name_eqb name_eqb_eq arg offset off_arg packet enc dstate d0
+                  dec_step codec_roundtrip poll_frame_ok enc_poll_frames_ok bytes poll_pack
+                  poll_unpack poll_roundtrip accepts (fun us => us) (fun us => eq_refl)
+                  hs real_get_all (fun n => eq_refl) hids_distinct c ems tr batches Hil
+                  (write_concat maxp polling frames) Hl Hsig (handlers_ok_fixed name hs c Hs))
+      as [_ [H _]].
+    exact (proj2 (H h Hh)).
+  Qed.
+
   Definition real_deliveries_c13 (lc : Limits.cfg) (d : Limits.direction) :=
     deliveries name arg packet dstate d0 dec_step (list (bool * bytes)) ws_pack ws_unpack
                (ws_accepts_c13 lc d) (fun us => us) real_get_all.
